@@ -53,7 +53,7 @@ def well_formed_upto(maxlen):
             room = maxlen - len(base)
             for e in "eE":
                 for es in ("", "+", "-"):
-                    for k in range(1, room - len(es)):
+                    for k in range(1, min(4, room - len(es))):      # exponents of at most three digits (larger ones only cost time)
                         for x in ds[k]:
                             out.append(base + e + es + x)
     return sorted(set(out))
